@@ -2,7 +2,7 @@
    Only ExtrOcamlBasic is used: bool, option, unit, list, prod, sumbool, sumor are mapped to the
    OCaml types; Z, N, positive, nat stay the extracted Coq datatypes.  No Extract Constant. *)
 From Coq Require Extraction ExtrOcamlBasic.
-From MS Require Import PyBase Buffer Bits Schc Compute.
+From MS Require Import PyBase Buffer Bits Schc Compute Parsers.
 Extraction Language OCaml.
 Extraction "model.ml"
   b_new b_copy b_shift b_pad b_value b_getitem b_getitem_int b_add b_and b_or b_xor b_invert
@@ -10,4 +10,5 @@ Extraction "model.ml"
   key_match dict_get dict_set dict_of_list
   compress decompress match_packet_descriptor match_schc_packet cm_compress cm_decompress
   schc_compress schc_decompress compute_functions encode_length decode_var field_match rule_matches
-  ipv6_payload_length ipv4_total_length ipv4_checksum udp_length udp_checksum sctp_checksum crc32c.
+  ipv6_payload_length ipv4_total_length ipv4_checksum udp_length udp_checksum sctp_checksum crc32c
+  factory parse_coap parse_sctp parse_udp parse_ipv4 parse_ipv6.
